@@ -1,10 +1,17 @@
-"""C08 — see DESIGN.md §5. Shared machinery: checks/hist_common.py, checks/oracles.py."""
-from checks import hist_common
+"""C08 — see DESIGN.md §5. Shared machinery: checks/hist_common.py, checks/oracles.py.
+User-wide calls made from inside a handler (Model/HandlerUser.v,
+Properties/C08U.v, harness family handleruser): checks/handler_user.py."""
+import json
+
+from checks import handler_user, hist_common
 
 
 def run(chk):
+    handler_user.stage(chk)
     return hist_common.run_property(chk, "C08")
 
 
 def replay(chk, path):
+    if "handleruser" in json.load(open(path)):
+        return handler_user.replay(chk, path)
     return hist_common.replay_property(chk, "C08", path)
